@@ -182,9 +182,18 @@ async fn part_a(ctx: &mut Ctx) {
                     _ => { store = MemStore::new(); applied = 0; script.push("r".into()); ctx.count("sm.restart"); }
                 }
             }
+            // every second history runs to the end of the log: histories over one log then meet at the same position
+            if ctx.rng.chance(1, 2) && applied < n {
+                let k = n - applied;
+                if store.apply_to_state_machine(&entries[applied..]).await.is_err() { infra("apply_to_state_machine failed"); }
+                applied += k;
+                script.push(format!("a{}", k));
+                ctx.count("sm.run_to_end");
+            }
             let (la, _) = store.last_applied_state().await.unwrap_or((None, Default::default()));
             // the store's own idea of its position (0 entries applied = None)
-            let pos = if applied == 0 && script.iter().all(|s| s != "i") { la.map(|l| l.index as usize + 1).unwrap_or(0) } else { la.map(|l| l.index as usize + 1).unwrap_or(0) };
+            let pos = la.map(|l| l.index as usize + 1).unwrap_or(0);
+            let _ = applied;
             ctx.case(&format!("sm {}", script.join(" ")), &format!("{} {}", pos, dump_state(&store.state)));
         }
     }
